@@ -222,7 +222,7 @@ def job(task):
     return fails, dict(stats)
 
 
-def stage_read(run, scratch, tier, totals, tm):
+def stage_read(run, scratch, tier, totals, tm, warm=None):
     emit = scratch / "emit-read.ndjson"
     res = run_tlc("SeqViewRead", f"MC_SeqViewRead_{tier}.cfg", scratch, workers=min(16, mp.cpu_count()), env={"EMIT_FILE": emit}, timeout=1800)
     run.add_tlc(res)
@@ -255,6 +255,8 @@ def stage_read(run, scratch, tier, totals, tm):
                 tasks.append((root, off, kind, part, 4))
     G.update(frames=frames, none=none)
     I.TABLES.setdefault("none", none)
+    if warm is not None:
+        warm()  # imports / JIT compilation once, in the parent of the forked workers
     ctx = mp.get_context("fork")
     agg = Counter()
     with ctx.Pool(min(16, len(tasks))) as pool:
